@@ -46,6 +46,17 @@ check("C18",
       "{1,9,11,15,16,30,3600 s} between writes are run on sqlite, and at every crash point the judge demands that an event write issued >= 15 s after the last observed flush is durable once it has returned.",
       "Trusted: as C06; the virtual clock shifts datetime.now/time.time/time.monotonic; AgeMust = 15 s is the property layer's reading of 'more than about ten seconds' (10..15 s is left free).",
       "TLA+ spec + TLC model checking + virtual-clock crash-point traces judged by TLC", "DESIGN.md §6 C18", level="model_checking")
+check("C07",
+      "TLC checks on the specification that the ingestion loop, built from AwStore's step relation (limit-1 read, Mergeable/Merged, replace-last or insert), leaves exactly Reduce(stream), "
+      "never alters an earlier event and never touches a spectator bucket, for every small stream; the real loop (real get(1), heartbeat_merge, replace_last/insert) is then recorded step by step on "
+      "memory/sqlite/peewee next to a populated spectator bucket and judged by TLC against the same definitions, together with the real heartbeat_reduce output.",
+      "Trusted: TLC, projection to half-tick integers; streams are all small ones plus random longer ones (sampled).",
+      "TLA+ spec + TLC model checking + TLC trace validation of the recorded loop", "DESIGN.md §6 C07")
+check("C08",
+      "spec/AwHeartbeat.tla states the pulsetime hull rule and the left fold; TLC checks normal form, idempotence, coverage and never-shortens on every small list, and judges every recorded "
+      "heartbeat_merge (iff + value) and heartbeat_reduce call (fold equality, normal form, idempotence on the recorded second application, coverage) over an exhaustive small grid plus random lists.",
+      "Trusted: TLC, projection to half-tick integers (fractional pulsetimes are multiples of half a tick).",
+      "TLA+ relational spec + TLC model checking of its theorems + TLC validation of recorded I/O", "DESIGN.md §6 C08")
 
 
 def build():
